@@ -39,9 +39,9 @@ var (
 	PathT   = &T{K: TPath}
 )
 
-func ArrayOf(t *T) *T      { return &T{K: TArray, Elem: t} }
-func TMapOf(t *T) *T       { return &T{K: TTMap, Elem: t} }
-func StructT(n string) *T  { return &T{K: TStruct, Name: n} }
+func ArrayOf(t *T) *T       { return &T{K: TArray, Elem: t} }
+func TMapOf(t *T) *T        { return &T{K: TTMap, Elem: t} }
+func StructT(n string) *T   { return &T{K: TStruct, Name: n} }
 func FiletypeT(n string) *T { return &T{K: TFiletype, Name: n} }
 
 func (t *T) String() string {
@@ -138,8 +138,8 @@ const (
 )
 
 type Exp struct {
-	K    ExpK
-	Lit  *Val
+	K   ExpK
+	Lit *Val
 	// LitT, when set, makes the printer render objects at struct-typed
 	// positions as struct literals (identifier keys).
 	LitT *T
@@ -152,12 +152,16 @@ type Exp struct {
 	Sub  *Exp
 }
 
-func Lit(v *Val) *Exp                   { return &Exp{K: ELit, Lit: v} }
-func Self(id string, path ...string) *Exp { return &Exp{K: ERefSelf, Id: id, Path: strings.Join(path, ".")} }
-func Ref(call string, path ...string) *Exp { return &Exp{K: ERefCall, Id: call, Path: strings.Join(path, ".")} }
-func SplitE(e *Exp) *Exp                { return &Exp{K: ESplit, Sub: e} }
-func ArrE(es ...*Exp) *Exp              { return &Exp{K: EArr, Arr: es} }
-func MapE(keys []string, vals []*Exp) *Exp { return &Exp{K: EMap, Keys: keys, Vals: vals} }
+func Lit(v *Val) *Exp { return &Exp{K: ELit, Lit: v} }
+func Self(id string, path ...string) *Exp {
+	return &Exp{K: ERefSelf, Id: id, Path: strings.Join(path, ".")}
+}
+func Ref(call string, path ...string) *Exp {
+	return &Exp{K: ERefCall, Id: call, Path: strings.Join(path, ".")}
+}
+func SplitE(e *Exp) *Exp                      { return &Exp{K: ESplit, Sub: e} }
+func ArrE(es ...*Exp) *Exp                    { return &Exp{K: EArr, Arr: es} }
+func MapE(keys []string, vals []*Exp) *Exp    { return &Exp{K: EMap, Keys: keys, Vals: vals} }
 func StructE(keys []string, vals []*Exp) *Exp { return &Exp{K: EStruct, Keys: keys, Vals: vals} }
 
 type Bind struct {
